@@ -593,6 +593,9 @@ int main(int argc, char *argv[])
       rl_attempted_completion_function = command_name_completion;
       line = readline(prompt);
 
+      // End of input (Ctrl-D or the end of a piped script).
+      if (line == NULL) { break; }
+
       if (!(line == NULL || line[0] == 0))
       {
         add_history(line);
